@@ -18,17 +18,22 @@ def jobs(tier):
         J.append(job(W, alg, 3)); J.append(job(W, alg, 4))
     for B in (7, 10):
         J.append(job(W, 'bc', 3, size=B, pres='list')); J.append(job(W, 'bc', 4, size=B, pres='list'))
-    J.append(job(W, 'bc', 5, size=10, pres='list', order='desc'))
+    for B in (7, 10, 12, 15):
+        J.append(job(W, 'bc', 5, size=B, pres='list', order='desc')); J.append(job(W, 'bc', 6, size=B, pres='list', order='desc', lo=1))
+    J.append(job(W, 'bc', 7, size=7, pres='list', order='desc', lo=1)); J.append(job(W, 'bc', 7, size=10, pres='list', order='desc', lo=1))
+    J.append(job(W, 'bc', 8, size=7, pres='list', order='desc', lo=1)); J.append(job(W, 'bc', 8, size=15, pres='list', order='desc', lo=1))
     if tier == 'thorough':
         for alg in ('greedy', 'kk', 'ckk', 'snp', 'rnp'):
             J.append(job(W, alg, 5, size=3, order='desc')); J.append(job(W, alg, 4, size=3))
         for alg in ('ff', 'ffd', 'bf', 'bfd', 'cdec', 'c23', 'c34'):
             J.append(job(W, alg, 5)); J.append(job(W, alg, 6, order='desc'))
-        J.append(job(W, 'bc', 6, size=20, pres='list', order='desc')); J.append(job(W, 'cbldm', 5, size=2))
+        for B in (12, 15, 20):
+            J.append(job(W, 'bc', 7, size=B, pres='list', order='desc', lo=1))
+        J.append(job(W, 'bc', 8, size=10, pres='list', order='desc', lo=1, mandatory=False)); J.append(job(W, 'cbldm', 5, size=2))
     return J
 
 
 ASSUMPTIONS = ['S1 numpy shim', 'S2 exact arithmetic', 'S3 constant hash', 'S6 MIP stub for ilp',
                'exact algorithms with 3 or more bins: a sums-only run may return another optimal partition, so only the objective value, the bin count and the internal consistency of each output are compared; heuristics and 2-bin results are compared as multisets of sums',
                'bin completion runs on value lists (named inputs: known finding under C07)']
-OUTSIDE = ['more than 4-5 items (quick) / 6 (thorough)', 'ilp: ten calls on one path multiply the stub\'s free choice of the optimum; its sums are checked against its bins in C17']
+OUTSIDE = ['more than 4-5 items (8 for bin completion)', 'ilp: ten calls on one path multiply the stub\'s free choice of the optimum; its sums are checked against its bins in C17']
